@@ -12,6 +12,7 @@
 #include <atomic>
 #include <cassert>
 #include <cstdint>
+#include <cstring>
 #include <memory>
 
 namespace xenium {
@@ -131,9 +132,12 @@ struct seqlock {
   void update(Func func);
 
 private:
-  using storage_t = typename std::aligned_storage<sizeof(T), alignof(T)>::type;
   using sequence_t = uintptr_t;
   using copy_t = uintptr_t;
+  // The data is copied in units of copy_t (see read_data/store_data), so each slot consists of a whole number of
+  // properly aligned copy_t words - even if sizeof(T) is not a multiple of sizeof(copy_t) or T is less strictly aligned.
+  using storage_t = typename std::aligned_storage<(sizeof(T) + sizeof(copy_t) - 1) / sizeof(copy_t) * sizeof(copy_t),
+                                                  (alignof(T) > alignof(copy_t) ? alignof(T) : alignof(copy_t))>::type;
 
   [[nodiscard]] bool is_write_pending(sequence_t seq) const { return (seq & 1) != 0; }
 
@@ -228,8 +232,10 @@ void seqlock<T, Policies...>::release_lock(sequence_t seq) {
 
 template <class T, class... Policies>
 void seqlock<T, Policies...>::read_data(T& dest, const storage_t& src) const {
-  auto* pdest = reinterpret_cast<copy_t*>(&dest);
-  auto* pend = pdest + (sizeof(T) / sizeof(copy_t));
+  // read all words of the slot into a local buffer; T itself is only accessed via memcpy
+  copy_t buffer[sizeof(storage_t) / sizeof(copy_t)];
+  copy_t* pdest = buffer;
+  const copy_t* pend = pdest + (sizeof(storage_t) / sizeof(copy_t));
   const auto* psrc = reinterpret_cast<const std::atomic<copy_t>*>(&src);
   for (; pdest != pend; ++psrc, ++pdest) {
     *pdest = psrc->load(std::memory_order_relaxed);
@@ -243,15 +249,21 @@ void seqlock<T, Policies...>::read_data(T& dest, const storage_t& src) const {
   // one of these relaxed-loads returns a new value written by a concurrent update operation,
   // the fences synchronize with each other, so it is guaranteed that the subsequent load on
   // _seq "sees" the new sequence value and the load operation will perform a retry.
+
+  std::memcpy(static_cast<void*>(&dest), buffer, sizeof(T));
 }
 
 template <class T, class... Policies>
 void seqlock<T, Policies...>::store_data(const T& src, storage_t& dest) {
+  // copy T into a local buffer of whole words (a trailing partial word is padded with zeros)
+  copy_t buffer[sizeof(storage_t) / sizeof(copy_t)] = {0};
+  std::memcpy(buffer, &src, sizeof(T));
+
   // (7) - this release-fence synchronizes-with the acquire-fence (6)
   XENIUM_THREAD_FENCE(std::memory_order_release);
 
-  const auto* psrc = reinterpret_cast<const copy_t*>(&src);
-  const auto* pend = psrc + (sizeof(T) / sizeof(copy_t));
+  const copy_t* psrc = buffer;
+  const copy_t* pend = psrc + (sizeof(storage_t) / sizeof(copy_t));
   auto* pdest = reinterpret_cast<std::atomic<copy_t>*>(&dest);
   for (; psrc != pend; ++psrc, ++pdest) {
     pdest->store(*psrc, std::memory_order_relaxed);
